@@ -43,6 +43,18 @@ func (c *Ctx) libFuncs() []*ssa.Function {
 	return out
 }
 
+// libFuncsAll: every function of the library package, new helper functions included (for rules
+// that scan the whole library rather than start from anchored functions).
+func (c *Ctx) libFuncsAll() []*ssa.Function {
+	var out []*ssa.Function
+	for _, f := range c.Funcs {
+		if f.Pkg == c.LibSSA || (topOf(f).Pkg == c.LibSSA) {
+			out = append(out, f)
+		}
+	}
+	return out
+}
+
 // upperBounded reports whether a dominating comparison bounds expr from above by a constant.
 func upperBounded(fn *ssa.Function, at ssa.Instruction, expr ssa.Value) bool {
 	return upperBoundedBy(fn, at, expr, 1<<30)
